@@ -110,13 +110,27 @@ def r10b(ctx, P):
                 nat["args"] = (a0, a1)
                 nat["callee"] = cal
                 return ("atom", ("call", "natural"), False)
+            if cal.endswith("Ordering::reverse") and t["args"]:
+                v = val(t["args"][0])
+                if v is not None and v[0] == "atom" and v[1] == ("call", "natural"):
+                    return ("atom", v[1], not v[2])
             return None
+
+        def eval_ret(ret, natv):
+            flip = {"Less": "Greater", "Greater": "Less", "Equal": "Equal"}
+            if ret is None:
+                return "?"
+            if ret[0] == "const":
+                return ret[1]
+            if ret[0] == "atom" and ret[1] == ("call", "natural"):
+                return flip[natv] if ret[2] else natv
+            return "?"
         ps = boolpaths.paths(f, 0, lambda b: None, lambda pl: None, env0=env0, call_atom=call_atom, track_return=True,
                              discr_variants=lambda a: ORDERING if a == ("discr", "natural") else so)
         bad = []
         for natv in ("Less", "Equal", "Greater"):
             for o in so:
-                rets = {p_.ret[1] if p_.ret and p_.ret[0] == "const" else "?" for p_ in ps
+                rets = {eval_ret(p_.ret, natv) for p_ in ps
                         if p_.cons.get(("discr", "natural"), natv) == natv and p_.cons.get(("discr", "order"), o) == o}
                 flip = {"Less": "Greater", "Greater": "Less", "Equal": "Equal"}
                 want = natv if o == "Asc" else flip[natv]
